@@ -18,7 +18,7 @@ Payloads == { <<"x", SQ, "]", " ", "=", " ", "_", "_", "v", "(", ")", " ", "#">>
 \* the alias positions are crossed with the emission paths of to_dict: the single dict literal ("alias"), the per-field
 \* kwargs[...] assignments (omit_none with a converted Optional field: "aliasopt"; omit_default: "aliasdflt") and the
 \* by_alias keyword of TO_DICT_ADD_BY_ALIAS_FLAG ("aliasflag": called as to_dict(by_alias=True))
-Positions == {"alias", "aalias", "cfgalias", "tdkey", "forbid", "literal", "enumvalue", "discrfield", "allowname", "aliasopt", "aliasdflt", "aliasflag"}
+Positions == {"alias", "aalias", "cfgalias", "tdkey", "forbid", "literal", "enumvalue", "discrfield", "allowname", "aliasopt", "aliasdflt", "aliasflag", "discrcfg"}
 
 \* ---- level 1: lexing theorems over all strings of length <= 4
 ReprSafe   == kind = "start" => \A x \in Strs(4) : Denotes(Repr(x), x)
@@ -32,6 +32,12 @@ RawSpliceRefuted == kind = "start" =>
 \* ---- level 2: classes
 RootD(str) == <<"dc", "R", << <<"v", <<"int">>, <<"req">>, <<>> >> >>, <<>> >>
 SubD(str)  == <<"dc", "A", << <<"v", <<"int">>, <<"req">>, <<>> >> >>, << <<"bases", <<RootD(str)>> >>, <<"classvars", << <<str, S("a")>> >> >> >> >>
+\* class-level discriminator (Config.discriminator) together with forbid_extra_keys: the field name is an accepted key
+DOptsC(str) == << <<"field", str>>, <<"include_subtypes", TRUE>> >>
+RootC(str) == <<"dc", "R", << <<"v", <<"int">>, <<"req">>, <<>> >> >>,
+                << <<"discriminator", DOptsC(str)>>, <<"forbid_extra_keys", TRUE>>, <<"discr_field", str>> >> >>
+SubC(str)  == <<"dc", "A", << <<"v", <<"int">>, <<"req">>, <<>> >> >>,
+                << <<"bases", <<RootC(str)>> >>, <<"classvars", << <<str, S("a")>> >> >>, <<"forbid_extra_keys", TRUE>>, <<"discr_field", str>>, <<"no_config", TRUE>> >> >>
 F(t, dflt, opts) == <<"f", t, dflt, opts>>
 ClassAt(p, str) ==
   CASE p = "alias"    -> <<"dc", "K", << F(<<"int">>, <<"req">>, << <<"alias", str>> >>) >>, << <<"serialize_by_alias", TRUE>> >> >>
@@ -50,6 +56,7 @@ ClassAt(p, str) ==
     [] p = "tdkey"    -> <<"dc", "K", << F(<<"tdict", "TD", << <<str, <<"int">>, TRUE>> >> >>, <<"req">>, <<>>) >>, <<>> >>
     [] p = "literal"  -> <<"dc", "K", << F(<<"literal", << S(str), S("other") >> >>, <<"req">>, <<>>) >>, <<>> >>
     [] p = "enumvalue" -> <<"dc", "K", << F(<<"enum", "E", "Enum", << <<"M", S(str)>>, <<"N", S("other")>> >> >>, <<"req">>, <<>>) >>, <<>> >>
+    [] p = "discrcfg" -> RootC(str)
     [] p = "discrfield" -> <<"dc", "K", << F(<<"discr", RootD(str), << <<"field", str>>, <<"include_subtypes", TRUE>> >> >>, <<"req">>, <<>>) >>, <<>> >>
 
 ValueAt(p, str) ==
@@ -60,6 +67,7 @@ ValueAt(p, str) ==
     [] p = "literal" -> <<"obj", "K", << S(str) >> >>
     [] p = "enumvalue" -> <<"obj", "K", << <<"enum", "E", "M">> >> >>
     [] p = "discrfield" -> <<"obj", "K", << <<"obj", "A", <<I(0)>> >> >> >>
+    [] p = "discrcfg" -> <<"obj", "A", <<I(0)>> >>
 
 Init == s = <<>> /\ pos = "none" /\ kind = "start"
 Next == kind = "start" /\ s' \in Strs(MaxLen) \cup Payloads /\ pos' \in Positions /\ kind' = "case"
@@ -67,11 +75,13 @@ Next == kind = "start" /\ s' \in Strs(MaxLen) \cup Payloads /\ pos' \in Position
 Str == Join(s)
 T == ClassAt(pos, Str)
 Cx == IF pos = "aliasflag" THEN [DefaultCx EXCEPT !.by_alias = "yes"] ELSE DefaultCx
-Wire == IF pos = "discrfield" THEN <<"skip">> ELSE Pack(T, Cx, ValueAt(pos, Str))
-Input == IF pos = "discrfield"
+Wire == IF pos \in {"discrfield", "discrcfg"} THEN <<"skip">> ELSE Pack(T, Cx, ValueAt(pos, Str))
+Input == IF pos = "discrcfg" THEN Dct(<< <<S("v"), I(0)>>, <<S(Str), S("a")>> >>)
+         ELSE IF pos = "discrfield"
          THEN Dct(<< <<S("f"), Dct(<< <<S("v"), I(0)>>, <<S(Str), S("a")>> >>)>> >>)
          ELSE Wire
-Dec == IF pos = "discrfield"
+Dec == IF pos = "discrcfg" THEN UnpackDiscr(<<SubC(Str)>>, RootC(Str), DOptsC(Str), Cx, Input)
+       ELSE IF pos = "discrfield"
        THEN LET r == UnpackDiscr(<<SubD(Str)>>, RootD(Str), << <<"field", Str>>, <<"include_subtypes", TRUE>> >>, Cx, Input[2][1][2]) IN
             IF IsOk(r) THEN Ok(<<"obj", "K", <<r[2]>> >>) ELSE r
        ELSE Unpack(T, Cx, Input)
@@ -85,5 +95,5 @@ ExactlyTheString ==
       [] pos \in {"literal", "enumvalue"} -> Wire = Dct(<< <<S("f"), S(Str)>> >>)
       [] OTHER -> TRUE
 
-EmitInv == kind = "case" => PrintT(ToJson(<<"quote", pos, Str, T, ValueAt(pos, Str), Wire, Input, Dec, IF pos = "discrfield" THEN SubD(Str) ELSE <<>> >>))
+EmitInv == kind = "case" => PrintT(ToJson(<<"quote", pos, Str, T, ValueAt(pos, Str), Wire, Input, Dec, IF pos = "discrfield" THEN SubD(Str) ELSE IF pos = "discrcfg" THEN SubC(Str) ELSE <<>> >>))
 =============================================================================
